@@ -672,6 +672,15 @@ class Built:
 
     def table(self, with_page):
         from django_components import DynamicComponent
+        if getattr(self, "_tbl", None) is None:
+            self._tbl = {}
+        if with_page in self._tbl:
+            return self._tbl[with_page]
+        self._tbl[with_page] = tbl = self._table(with_page)
+        return tbl
+
+    def _table(self, with_page):
+        from django_components import DynamicComponent
         tbl = [(cls._class_hash, cinfo_of(cls)) for cls in self.classes]
         tbl.append((DynamicComponent._class_hash, cinfo_of(DynamicComponent)))
         if with_page:
@@ -837,5 +846,83 @@ def c_phspec(p):
         c_kind(kind), copt(css, lambda s: cstr(b(s))), clist([cstr(b(i)) for i in ids]), "true" if slash else "false")
 
 
+def c_page_case(typ, tbl, pieces, tail, ph, js_toks, css_toks, js_s, css_s, final_b):
+    ph_t = "None" if ph is None else "(Some (%s, %s))" % (clist(["(%s, %s)" % (cstr(b(t)), c_phspec(p)) for t, p in ph[0]]), cstr(b(ph[1])))
+    return "(%s, %s, (%s, %s), %s, (%s, %s), (%s, %s, %s))" % (
+        c_rtype(typ), c_table(tbl), clist(["(%s, %s)" % (cstr(b(t)), c_part(p)) for t, p in pieces]), cstr(b(tail)), ph_t,
+        clist([c_tok(t) for t in js_toks]), clist([c_tok(t) for t in css_toks]), cstr(js_s), cstr(css_s), cstr(final_b))
+
+
+def page_diag(prop, imports, terms):
+    """page_diag of the given page cases (list of bit masks), evaluated inside Coq."""
+    import os
+    if not terms:
+        return []
+    path = os.path.join(C.WORK, prop, "diag_0.v")
+    with open(path, "w") as f:
+        f.write(imports + "\nDefinition cases : list page_case :=\n [ " + "\n ; ".join(terms) + "\n ].\n")
+        f.write("Eval vm_compute in (map page_diag cases).\n")
+    rc, out = C._coqc_file(path, 600)
+    for ext in (".v", ".vo", ".vok", ".vos", ".glob"):
+        try:
+            os.remove(path[:-2] + ext)
+        except FileNotFoundError:
+            pass
+    try:
+        return C.parse_bad(out)
+    except C.HarnessError:
+        return []
+
+
 def c_phdoc_case(text, pieces, tail):
     return "(%s, %s, %s)" % (cstr(b(text)), clist(["(%s, %s)" % (cstr(b(t)), c_phspec(p)) for t, p in pieces]), cstr(b(tail)))
+
+
+# ------------------------------------------------------------------------------------------------
+# evaluating several batches of cases inside Coq with ONE pool of workers (common.coq_eval_cases runs one batch at a
+# time; with many small batches that leaves most of the cores idle)
+# ------------------------------------------------------------------------------------------------
+def eval_batches(prop, imports, batches):
+    """batches = [(tag, case_type, check_fn, terms, shard, extra_defs)] -> {tag: sorted indices where check_fn is false}."""
+    import concurrent.futures
+    import os
+    d = os.path.join(C.WORK, prop)
+    os.makedirs(d, exist_ok=True)
+    jobs = []
+    for tag, case_type, check_fn, terms, shard, extra_defs in batches:
+        for f in os.listdir(d):
+            if f.startswith(tag + "_"):
+                os.remove(os.path.join(d, f))
+        for si in range(0, len(terms), shard):
+            path = os.path.join(d, "%s_%d.v" % (tag, si // shard))
+            with open(path, "w") as f:
+                f.write(imports + "\n" + (extra_defs or "") + "\n")
+                f.write("Definition cases : list (%s) :=\n [ " % case_type)
+                f.write("\n ; ".join(terms[si:si + shard]))
+                f.write("\n ].\n")
+                f.write("Eval vm_compute in (bad_indices (%s) cases).\n" % check_fn)
+            jobs.append((os.path.getsize(path), tag, si, path))
+    jobs.sort(reverse=True)          # longest first
+    bad = {b[0]: [] for b in batches}
+    try:
+        with concurrent.futures.ThreadPoolExecutor(max_workers=C.NCPU) as ex:
+            futs = {ex.submit(C._coqc_file, path, 900): (tag, si, path) for _, tag, si, path in jobs}
+            for fu in concurrent.futures.as_completed(futs):
+                tag, si, path = futs[fu]
+                rc, out = fu.result()
+                if rc != 0:
+                    raise C.HarnessError("coqc failed on %s (rc=%d):\n%s" % (path, rc, out[-3000:]))
+                bad[tag].extend(si + i for i in C.parse_bad(out))
+    finally:
+        for _, tag, si, path in jobs:
+            base = path[:-2]
+            for ext in (".v", ".vo", ".vok", ".vos", ".glob"):
+                try:
+                    os.remove(base + ext)
+                except FileNotFoundError:
+                    pass
+            try:
+                os.remove(os.path.join(os.path.dirname(path), "." + os.path.basename(base) + ".aux"))
+            except FileNotFoundError:
+                pass
+    return {k: sorted(v) for k, v in bad.items()}
